@@ -151,7 +151,11 @@ func (d *drv) drip(id int, a common.Args) {
 		ds = append(ds, destSpec{k.ID, am})
 		sum += am
 	}
-	d.add(owner, ds, sum+uint64(d.pick(0, 0, 50)), d.now()+d.pick(0, 0, 30), dur)
+	value := sum + uint64(d.pick(0, 0, 50))
+	if value < 100 { // vestingsc min_lock (sc.yaml); the surplus is the owner's excess
+		value = 100
+	}
+	d.add(owner, ds, value, d.now()+d.pick(0, 0, 30), dur)
 	if len(d.pools) == 0 {
 		w.EndBlock()
 		return
